@@ -98,6 +98,7 @@ type vgfOp struct {
 	SrcRow   uint64
 	Official bool
 	Optimize bool
+	Stored   bool // clear-import: pass the value the column currently holds (as a client that clears a value does)
 }
 
 func (o vgfOp) String() string {
@@ -144,7 +145,7 @@ func vgfDefaultWeights(kind string) []vgfWeight {
 	case vgfMutex, vgfBool:
 		return append([]vgfWeight{{"setBit", 6}, {"clearBit", 3}, {"clearRow", 2}, {"import", 6}, {"importClear", 3}, {"importWide", 2}}, admin...)
 	default: // bsi
-		return append([]vgfWeight{{"setValue", 6}, {"importValue", 6}, {"importValueClear", 2}, {"importValueWide", 2}}, admin...)
+		return append([]vgfWeight{{"setValue", 6}, {"importValue", 6}, {"importValueClear", 4}, {"importValueWide", 2}, {"importValueWideClear", 1}}, admin...)
 	}
 }
 
@@ -214,7 +215,9 @@ func vgfGenOp(t *rapid.T, label string, cfg vgfCfg, ws []vgfWeight) vgfOp {
 			op.Rows = append(op.Rows, r)
 			op.Cols = append(op.Cols, cfg.Shard*ShardWidth+vgfColOffs[i])
 		}
-	case "importValueWide":
+	case "importValueWide", "importValueWideClear":
+		op.Clear = strings.HasSuffix(op.Name, "Clear")
+		op.Stored = op.Clear
 		op.Name = "importValue"
 		v := vgfGenVal(t, label+".val")
 		for i := 0; i < vgfWideN; i++ {
@@ -228,6 +231,9 @@ func vgfGenOp(t *rapid.T, label string, cfg vgfCfg, ws []vgfWeight) vgfOp {
 		for i := 0; i < n; i++ {
 			op.Cols = append(op.Cols, col(fmt.Sprintf(".c%d", i)))
 			op.Vals = append(op.Vals, vgfGenVal(t, fmt.Sprintf("%s.v%d", label, i)))
+		}
+		if op.Clear {
+			op.Stored = rapid.IntRange(0, 3).Draw(t, label+".stored") > 0
 		}
 	case "setValue":
 		op.Col = col(".col")
@@ -266,8 +272,9 @@ type vgfM struct {
 	blkDirty    map[int]bool        // C10: block written by a path other than setBit/clearBit since
 	staleBlock  bool                // C10 rule satisfied
 	nSnap       int
-	lastOp      string // name of the operation applied last
-	wide        bool   // some container held more values than fit inline
+	lastOp      string         // name of the operation applied last
+	events      map[string]int // free-form class counters of this case
+	wide        bool           // some container held more values than fit inline
 	nReopen     int
 	paths       map[string]int
 }
@@ -276,7 +283,7 @@ func vgfNew(t *rapid.T, cfg vgfCfg, dir, name string) *vgfM {
 	m := &vgfM{t: t, cfg: cfg, name: name, path: filepath.Join(dir, name), rows: vgfRowsOf(cfg.Kind),
 		bits: map[uint64]map[uint64]struct{}{}, vals: map[uint64]int64{},
 		lastPath: map[uint64]string{}, readSince: map[uint64]bool{}, pendingX: map[uint64]bool{},
-		everRows: map[uint64]struct{}{}, touched: map[uint64]struct{}{}, blkComputed: map[int]bool{}, blkDirty: map[int]bool{}, paths: map[string]int{}}
+		events: map[string]int{}, everRows: map[uint64]struct{}{}, touched: map[uint64]struct{}{}, blkComputed: map[int]bool{}, blkDirty: map[int]bool{}, paths: map[string]int{}}
 	if cfg.Bg {
 		m.q = make(chan *fragment, 1)
 	}
@@ -331,6 +338,33 @@ func (m *vgfM) drain() bool {
 	default:
 		return false
 	}
+}
+
+// withWorker runs fn, a write that may wait for the snapshot it enqueues (the large importValue path; setRow and
+// clearRow since they are acknowledged only when durable). A pending snapshot runs first (the real worker would get
+// to it at the latest now); while fn runs the harness plays the queue worker for the one snapshot fn enqueues; if fn
+// did not wait for it, it runs right after fn. Either way the queue is empty afterwards and the outcome is the same.
+func (m *vgfM) withWorker(fn func()) {
+	if m.q == nil {
+		fn()
+		return
+	}
+	m.drain()
+	stop, exited := make(chan struct{}), make(chan struct{})
+	go func() {
+		defer close(exited)
+		select {
+		case fr := <-m.q:
+			_ = fr.protectedSnapshot(true)
+			fr.snapshotCond.Broadcast()
+		case <-stop:
+		}
+	}()
+	fn()
+	close(stop)
+	<-exited
+	m.drain()
+	m.nSnap++
 }
 
 func (m *vgfM) close() {
@@ -541,6 +575,14 @@ func vgfOfficialRoaring(positions []uint64) []byte {
 // applying one operation to the fragment and to the model
 
 func (m *vgfM) apply(op vgfOp) {
+	if op.Name == "importValue" && op.Clear && op.Stored {
+		op.Vals = append([]int64(nil), op.Vals...)
+		for i, c := range op.Cols {
+			if v, ok := m.vals[c]; ok {
+				op.Vals[i] = v
+			}
+		}
+	}
 	m.hist = append(m.hist, op.String())
 	m.lastOp = op.Name
 	if len(op.Cols) >= vgfWideN {
@@ -596,7 +638,9 @@ func (m *vgfM) apply(op vgfOp) {
 			// a source row without a segment for this shard (e.g. Row() of a field that has no fragment here)
 			src = NewRow((m.cfg.Shard+1)*ShardWidth + 7)
 		}
-		got, err := f.setRow(src, op.Row)
+		var got bool
+		var err error
+		m.withWorker(func() { got, err = f.setRow(src, op.Row) })
 		if err != nil {
 			m.fail("setRow: %v", err)
 		}
@@ -610,7 +654,9 @@ func (m *vgfM) apply(op vgfOp) {
 		m.wrote("setRow", op.Row)
 	case "clearRow":
 		want := len(m.bits[op.Row]) > 0
-		got, err := f.clearRow(op.Row)
+		var got bool
+		var err error
+		m.withWorker(func() { got, err = f.clearRow(op.Row) })
 		if err != nil {
 			m.fail("clearRow: %v", err)
 		}
@@ -690,6 +736,12 @@ func (m *vgfM) apply(op vgfOp) {
 				m.depth = d
 			}
 		}
+		before := map[uint64]int64{}
+		for _, c := range op.Cols {
+			if v, ok := m.vals[c]; ok {
+				before[c] = v
+			}
+		}
 		for i, c := range op.Cols {
 			if op.Clear {
 				delete(m.vals, c)
@@ -697,30 +749,44 @@ func (m *vgfM) apply(op vgfOp) {
 				m.vals[c] = op.Vals[i]
 			}
 		}
-		// the large path waits for the queued snapshot: a pending one runs first (the worker would get to it
-		// at the latest now), then the harness plays the queue worker for exactly the one this call enqueues
+		// what the import overwrites or clears, for the class histogram
+		stored := func(c uint64) string {
+			v, ok := before[c]
+			switch {
+			case !ok:
+				return "absent"
+			case v < 0:
+				return "negative"
+			case v == 0:
+				return "zero"
+			}
+			return "positive"
+		}
+		// the large path waits for the queued snapshot it enqueues (see withWorker); whether it is taken depends on opN,
+		// which a pending snapshot resets, so that one runs first in both cases
 		m.drain()
 		f.mu.Lock()
 		large := !(len(op.Cols)*int(m.depth+1)+f.opN < f.MaxOpN)
 		f.mu.Unlock()
 		path := "importValueSmall"
-		var done chan struct{}
 		if large {
 			path = "importValueLarge"
-			if m.q != nil {
-				done = make(chan struct{})
-				go func() {
-					fr := <-m.q
-					_ = fr.protectedSnapshot(true)
-					fr.snapshotCond.Broadcast()
-					close(done)
-				}()
-			}
-			m.nSnap++
 		}
-		err := f.importValue(append([]uint64(nil), op.Cols...), append([]int64(nil), op.Vals...), m.depth, op.Clear)
-		if done != nil {
-			<-done
+		kind := "import"
+		if op.Clear {
+			kind = "clear-import"
+		}
+		for _, c := range op.Cols {
+			m.events[fmt.Sprintf("bsi:%s over %s value via %s path", kind, stored(c), strings.ToLower(strings.TrimPrefix(path, "importValue")))]++
+		}
+		var err error
+		call := func() {
+			err = f.importValue(append([]uint64(nil), op.Cols...), append([]int64(nil), op.Vals...), m.depth, op.Clear)
+		}
+		if large {
+			m.withWorker(call)
+		} else {
+			call()
 		}
 		if err != nil {
 			m.fail("importValue: %v", err)
@@ -978,7 +1044,13 @@ func (m *vgfM) checkBSIRows() {
 		{pql.EQ, "==", func(v int64) bool { return v == p }},
 		{pql.NEQ, "!=", func(v int64) bool { return v != p }},
 	}
-	// (ordered comparisons LT/LTE/GT/GTE are the subject of C14 and are not read here)
+	if m.depth >= 1 {
+		ops = append(ops,
+			rop{pql.LT, "<", func(v int64) bool { return v < p }},
+			rop{pql.LTE, "<=", func(v int64) bool { return v <= p }},
+			rop{pql.GT, ">", func(v int64) bool { return v > p }},
+			rop{pql.GTE, ">=", func(v int64) bool { return v >= p }})
+	}
 	for _, o := range ops {
 		row, err := m.f.rangeOp(o.op, m.depth, p)
 		if err != nil {
@@ -987,6 +1059,32 @@ func (m *vgfM) checkBSIRows() {
 		if got, want := row.Columns(), m.bsiWhere(o.ok); !vgfEqU(got, want) {
 			m.fail("rangeOp(value %s %d, depth=%d) = %v, want %v (values %v)", o.name, p, m.depth, got, want, m.vals)
 		}
+	}
+	// the same comparisons against zero and the extremes (the sign row decides these)
+	if m.depth >= 1 {
+		for _, k := range []int64{0, lim, -lim} {
+			k := k
+			for _, o := range []rop{
+				{pql.LT, "<", func(v int64) bool { return v < k }},
+				{pql.LTE, "<=", func(v int64) bool { return v <= k }},
+				{pql.GT, ">", func(v int64) bool { return v > k }},
+				{pql.GTE, ">=", func(v int64) bool { return v >= k }},
+			} {
+				row, err := m.f.rangeOp(o.op, m.depth, k)
+				if err != nil {
+					m.fail("rangeOp(%s %d): %v", o.name, k, err)
+				}
+				if got, want := row.Columns(), m.bsiWhere(o.ok); !vgfEqU(got, want) {
+					m.fail("rangeOp(value %s %d, depth=%d) = %v, want %v (values %v)", o.name, k, m.depth, got, want, m.vals)
+				}
+			}
+		}
+	}
+	// not-null
+	if nn, err := m.f.notNull(); err != nil {
+		m.fail("notNull: %v", err)
+	} else if got := nn.Columns(); !vgfEqU(got, m.valCols()) {
+		m.fail("notNull() = %v, want %v", got, m.valCols())
 	}
 	// sum / min / max
 	var wsum int64
